@@ -3,10 +3,10 @@
 TIER="$1"; shift
 for S in "$@"; do
   for P in C01 C02 C03 C04 C05 C06 C07 C08 C09 C10 C11 C12 C13 C14 C15 C16 C17 C18 C19 C20; do
-    R=$(VERIF_SEED=$S ./check $P --tier $TIER 2>&1 | grep -v condarc)
-    V=$(echo "$R" | grep -c '^VIOLATION')
-    I=$(echo "$R" | grep -c '^INCONCLUSIVE')
-    echo "seed=$S $P tier=$TIER violations=$V inconclusive=$I :: $(echo "$R" | grep -E '^C[0-9]+ tier' | cut -c1-90)"
-    if [ "$V" != 0 ] || [ "$I" != 0 ]; then echo "$R" | grep -E -A1 '^VIOLATION|^INCONCLUSIVE' | cut -c1-700 | head -12; fi
+    R=$(VERIF_SEED=$S ./check $P --tier $TIER 2>&1 | grep -av condarc)
+    V=$(echo "$R" | grep -ac '^VIOLATION')
+    I=$(echo "$R" | grep -ac '^INCONCLUSIVE')
+    echo "seed=$S $P tier=$TIER violations=$V inconclusive=$I :: $(echo "$R" | grep -aE '^C[0-9]+ tier' | cut -c1-90)"
+    if [ "$V" != 0 ] || [ "$I" != 0 ]; then echo "$R" | grep -aE -A1 '^VIOLATION|^INCONCLUSIVE' | cut -c1-700 | head -12; fi
   done
 done
